@@ -127,18 +127,18 @@ void h_cover(void) {
 
 
 def build_unit(chk):
-    text, info = vl2c.verilate(SOURCES, "hex", "Vhex", chk.out, chk.manifest)
+    text, info = vl2c.verilate(SOURCES, "hex", "Vhex", chk.out, chk.manifest, extra_args=["--trace"])
     pre = "#define VL_IDX(e, n) vl_idx((e), (n))\n#include <stdint.h>\nstatic inline uint32_t vl_idx(uint32_t e, uint32_t n) { __CPROVER_assert(e < n, \"RTL memory index below MEM_DEPTH\"); return e; }\n"
     return chk.write("c03_unit.c", pre + text + HARNESS), info
 
 
 def native(chk):
-    """natively Verilated model (--public-flat-rw) + replay harness"""
+    """natively Verilated model (same generator options as the CMake build) + replay harness"""
     mdir = os.path.join(chk.out, "vl_native")
     os.makedirs(mdir, exist_ok=True)
     exe = os.path.join(mdir, "Vhexn")
     srcs = [os.path.join(hv.REPO, s) for s in SOURCES]
-    cmd = ["verilator", "--cc", "--exe", "--build", "-j", "8", "--top-module", "hex", "--prefix", "Vhexn", "-Wno-fatal", "-Wno-lint", "--public-flat-rw",
+    cmd = ["verilator", "--cc", "--exe", "--build", "-j", "8", "--top-module", "hex", "--prefix", "Vhexn", "--trace", "-Wno-fatal", "-Wno-lint",
            "-CFLAGS", "-O1 -I%s -I%s" % (os.path.join(hv.VERIF, "spec"), hv.REPO), "--Mdir", mdir, "-o", "Vhexn"] + srcs + [os.path.join(hv.VERIF, "native", "c03_native.cpp")]
     rc, o, e, secs = hv.run(cmd, timeout=900)
     if rc != 0:
@@ -190,7 +190,7 @@ def main(chk, replay_file):
         sw = json.loads(o)
     except Exception:
         raise hv.Infra("native RTL sweep failed: " + (o + e)[-800:])
-    sw["stage"] = "natively Verilated model (--public-flat-rw): one clock vs isa_step on seeded states (byte grid x corner/random registers)"
+    sw["stage"] = "natively Verilated model (same generator options as the CMake build): one clock vs isa_step on seeded states (byte grid x corner/random registers)"
     sw["secs"] = round(secs, 1)
     chk.native.append(sw)
     if sw.get("mismatches", 0):
